@@ -224,8 +224,8 @@ def describe(case):
 
 
 def entity_list(fmt, entries):
-    """(key, raw value, attached comment) of the entities"""
-    return [(key_str(e.key),) + tuple(entity_facts(fmt, e)) for e in entries if ckind(e) == K_ENTITY]
+    """(key, raw value) of the entities"""
+    return [(key_str(e.key), entity_facts(fmt, e)[0]) for e in entries if ckind(e) == K_ENTITY]
 
 
 def classify(case, sig, junk=()):
@@ -251,15 +251,12 @@ def oracle_serialize(chk, case, ref, out_text):
     old_vals = {it[1]: (it[2], it[3]) for it in case["old_items"] if it[0] == "ent"}
     ref_coms = {it[1]: it[3] for it in case["ref_items"] if it[0] == "ent"}
 
-    def cv(c):
-        return None if c is None else comment_val(fmt, c)
     want = []
     for k in ref_keys:
         if new_data.get(k) is not None:
-            # wrap keeps the reference entity's syntax and comment around the new value
-            want.append((k, case["new_recs"][k], cv(ref_coms[k])))
+            want.append((k, case["new_recs"][k]))
         elif k not in new_data and k in old_vals:
-            want.append((k, old_vals[k][0], cv(old_vals[k][1])))
+            want.append((k, old_vals[k][0]))
     entries = walk_bytes(name, out_text.encode("utf-8"))
     junk = [e.all for e in entries if ckind(e) == K_JUNK]
     if junk:
@@ -275,6 +272,18 @@ def oracle_serialize(chk, case, ref, out_text):
         chk.fail(classify(case, "serialize-values"), desc,
                  {"output": out_text, "entities": got, "expected": want})
         return
+    if fmt in SPECIAL_FORMATS:
+        # wrap keeps the reference entity's syntax and attached comment around the new value:
+        # the record rendered with the new value is in the output, text for text
+        for k in ref_keys:
+            if new_data.get(k) is not None and not classify(case, "").startswith("inc-wrap"):
+                c = ref_coms[k]
+                piece = (render_comment(fmt, c) + "\n" if c is not None else "") + \
+                    render_entity(fmt, k, case["new_recs"][k])
+                if piece not in out_text:
+                    chk.fail("serialize-wrapped-text", desc,
+                             {"output": out_text, "key": k, "expected_piece": piece})
+                    return
     bad = [m for m in ["placeholder", "EN_", JUNK_MARK] + case["obsolete"] if m in out_text]
     for k, v in new_data.items():
         if v is None and k in ref_keys and any(g[0] == k for g in got):
